@@ -153,10 +153,15 @@ bool plan_from_text(const std::string &text, Plan &p, std::string *err) {
             c.lit("]"); c.ws();
             if (c.lit("f=[")) {
                 int64_t v[9];
-                for (int k = 0; k < 9; ++k) { if (!c.num(v[k])) return fail("fault"); c.lit(","); }
+                uint64_t bseed = 0;
+                for (int k = 0; k < 9; ++k) {
+                    if (k == 5) { if (!c.unum(bseed)) return fail("fault seed"); v[k] = 0; } // full 64-bit seed: not a signed number
+                    else if (!c.num(v[k])) return fail("fault");
+                    c.lit(",");
+                }
                 c.lit("]");
                 s.fault.open_errno = static_cast<int>(v[0]); s.fault.byte_budget = v[1]; s.fault.budget_errno = static_cast<int>(v[2]);
-                s.fault.fail_write_call = v[3]; s.fault.fail_errno = static_cast<int>(v[4]); s.fault.benign_seed = static_cast<uint64_t>(v[5]);
+                s.fault.fail_write_call = v[3]; s.fault.fail_errno = static_cast<int>(v[4]); s.fault.benign_seed = bseed;
                 s.fault.short_write_pct = static_cast<unsigned>(v[6]); s.fault.eintr_pct = static_cast<unsigned>(v[7]); s.fault.short_read_pct = static_cast<unsigned>(v[8]);
             }
             p.steps.push_back(s);
